@@ -102,6 +102,9 @@ pub struct SessionSpec {
     pub crash: Option<(usize, u64)>,
     pub collect_every_step: bool,
     pub alloc_mode: u8,
+    /// the caller releases a value it was handed as soon as no variable can reach it any more
+    /// (false: it keeps everything until the session ends, like the shipped prompt)
+    pub caller_releases: bool,
 }
 
 impl SessionSpec {
@@ -113,6 +116,7 @@ impl SessionSpec {
             "crash": self.crash.map(|(l, k)| json!({"line": l, "step": k})),
             "collect_every_step": self.collect_every_step,
             "alloc_mode": alloc::mode_name(self.alloc_mode),
+            "caller_releases": self.caller_releases,
         })
     }
     pub fn from_json(v: &Value) -> SessionSpec {
@@ -125,6 +129,7 @@ impl SessionSpec {
             },
             collect_every_step: v["collect_every_step"].as_bool().unwrap_or(false),
             alloc_mode: alloc::mode_from_name(v["alloc_mode"].as_str().unwrap_or("plain")),
+            caller_releases: v["caller_releases"].as_bool().unwrap_or(false),
         }
     }
 }
@@ -136,6 +141,10 @@ struct Session {
     compiler: Option<Compiler>,
     vm: Option<VM>,
     results: Vec<Object>,
+    /// objects the machine stopped managing when it handed them out (mirrors `GC::untrace`)
+    owned: Vec<Object>,
+    last_globals: Vec<Object>,
+    pub released_early: u64,
 }
 
 pub struct LineRun {
@@ -160,11 +169,63 @@ impl Session {
             compiler: Some(Compiler::new()),
             vm: Some(VM::new()),
             results: Vec::new(),
+            owned: Vec::new(),
+            last_globals: Vec::new(),
+            released_early: 0,
         }
+    }
+
+    /// what `GC::untrace` does: the value, and the elements of an array the machine still managed
+    fn take_ownership(&mut self, v: Object) {
+        if !v.is_heap_allocated() {
+            return;
+        }
+        let a = nederlang::verif::address(v);
+        if self.owned.iter().any(|o| nederlang::verif::address(*o) == a) {
+            return;
+        }
+        if !shadow::lock().is_alive(a) {
+            return;
+        }
+        self.owned.push(v);
+        if v.tag() == nederlang::object::Type::Array {
+            let els: Vec<Object> = v.as_vec().iter().copied().collect();
+            for e in els {
+                self.take_ownership(e);
+            }
+        }
+    }
+
+    /// Between two lines the machine refers to a value it handed out only through the global
+    /// variables: the caller releases every value of its own that no variable reaches any more.
+    fn caller_release(&mut self) -> Vec<Finding> {
+        let _g = sim::enter_harness();
+        let victims: Vec<Object> = {
+            let sh = shadow::lock();
+            let reach: std::collections::BTreeSet<usize> =
+                sim::collect_objects_ordered(&sh, &[self.last_globals.as_slice()]).into_iter().map(|(a, _)| a).collect();
+            self.owned
+                .iter()
+                .copied()
+                .filter(|o| {
+                    let a = nederlang::verif::address(*o);
+                    sh.is_alive(a) && !reach.contains(&a)
+                })
+                .collect()
+        };
+        for o in &victims {
+            o.free();
+        }
+        self.released_early += victims.len() as u64;
+        let sh = shadow::lock();
+        self.owned.retain(|o| sh.is_alive(nederlang::verif::address(*o)));
+        drop(sh);
+        CTX.with(|c| std::mem::take(&mut c.borrow_mut().findings))
     }
 
     fn run_line(&mut self, text: &str, plan: &Plan) -> LineRun {
         runner::begin_run(plan, SESSION_ID, 0, None);
+        CTX.with(|c| c.borrow_mut().keep_globals = true);
         sim::marker("LINE+");
         alloc::set_mode(plan.alloc_mode);
         let compiler = self.compiler.as_mut().unwrap();
@@ -196,10 +257,15 @@ impl Session {
             }
             if v.is_heap_allocated() {
                 self.results.push(v);
+                let _g = sim::enter_harness();
+                self.take_ownership(v);
             }
         }
         CTX.with(|c| {
             let mut ctx = c.borrow_mut();
+            if ctx.step > 0 {
+                self.last_globals = std::mem::take(&mut ctx.last_globals);
+            }
             let mut findings = std::mem::take(&mut ctx.findings);
             findings.extend(extra);
             let (f, s) = ctx.crash_state.as_ref().map(|c| (c.frames, c.stack)).unwrap_or((0, 0));
@@ -271,6 +337,7 @@ pub struct SessionResult {
     pub heap_values_crossed_lines: bool,
     pub read_poisoned: bool,
     pub inconsistent_why: String,
+    pub released_early: u64,
 }
 
 const HEAP_CLASSES: &[&str] = &[
@@ -399,6 +466,7 @@ pub fn run_session(spec: &SessionSpec, verbose: bool) -> SessionResult {
         heap_values_crossed_lines: false,
         read_poisoned: false,
         inconsistent_why: String::new(),
+        released_early: 0,
     };
     let mut last_fail = "none".to_string();
     let mut skeleton: Vec<String> = Vec::new();
@@ -437,7 +505,11 @@ pub fn run_session(spec: &SessionSpec, verbose: bool) -> SessionResult {
         if crash_here {
             plan.crash_at = spec.crash.map(|(_, k)| k);
         }
-        let r = s.run_line(&text, &plan);
+        let mut r = s.run_line(&text, &plan);
+        if spec.caller_releases {
+            let f = s.caller_release();
+            r.findings.extend(f);
+        }
         res.lines_run += 1;
         res.steps += r.steps;
         res.line_steps.push(r.steps);
@@ -599,6 +671,7 @@ pub fn run_session(spec: &SessionSpec, verbose: bool) -> SessionResult {
             break;
         }
     }
+    res.released_early = s.released_early;
     let end = s.finish();
     for f in end {
         if HEAP_CLASSES.contains(&f.class.as_str()) && findings.is_empty() {
@@ -723,7 +796,7 @@ fn template(t: usize, pos: usize, env: &mut GEnv) -> SLine {
                 "loop",
                 vec![
                     st(&format!("stel {} = 0;", i), true),
-                    st(&format!("zolang {i} < 3 {{ {i} = {i} + 1; }};", i = i), true),
+                    st(&format!("zolang {i} < 3 {{ {i} = {i} + 1; als {i} == 2 {{ volgende; }}; }};", i = i), true),
                     st(&format!("{};", i), false),
                 ],
                 Fail::None,
@@ -1107,7 +1180,7 @@ impl<'a> SGen<'a> {
     }
 }
 
-const RUN_FAILS: &[&str] = &["(1 + ja);", "[1, 2][5];", "int(\"x\");", "lengte(1);", "(!5);", "[\"a\", (2.5 + 1)];", "\"abc\"[7];"];
+const RUN_FAILS: &[&str] = &["(1 + ja);", "[1, 2][5];", "int(\"x\");", "lengte(1);", "(!5);", "[\"a\", (2.5 + 1)];", "\"abc\"[7];", "[1, 2][-5];", "\"abc\"[-7];"];
 const PARSE_FAILS: &[&str] = &["stel = 1", "(1 + ", "[1, 2", "als { }", "1 +", "stel q 5", "zolang ja", "{ 1; ", "stel q = \"abc", "1 2 )"];
 
 impl<'a> SGen<'a> {
@@ -1124,6 +1197,14 @@ impl<'a> SGen<'a> {
             } else {
                 format!("string({});", i)
             };
+            // the loop body may be left early: `volgende` skips the rest once, `stop` ends the loop
+            let leave = match self.rng.below(4) {
+                0 => format!("als {} == 1 {{ volgende; }}; ", i),
+                1 => format!("als {} == 2 {{ stop; }}; ", i),
+                2 => format!("als {i} == 1 {{ stel u{i} = [{i}]; volgende; }} anders {{ als {i} > 2 {{ stop; }}; }}; ", i = i),
+                _ => String::new(),
+            };
+            let body = format!("{}{}", leave, body);
             let l = line(
                 "loop",
                 vec![
@@ -1356,7 +1437,19 @@ impl<'a> SGen<'a> {
                         return l;
                     }
                 }
-                let bad = match self.rng.below(4) {
+                let bad = match self.rng.below(5) {
+                    4 => {
+                        // element assignment far outside a fresh string / a list, below its start or past its end
+                        let n = self.fresh();
+                        let idx = *self.rng.pick(&["-9", "7", "-4", "3"]);
+                        if self.rng.chance(1, 2) {
+                            stmts.push(st(&format!("stel {} = string(123);", n), true));
+                            format!("{n}[{i}] = \"x\";", n = n, i = idx)
+                        } else {
+                            stmts.push(st(&format!("stel {} = [1.5, \"b\", 2];", n), true));
+                            format!("{n}[{i}] = [{n}];", n = n, i = idx)
+                        }
+                    }
                     0 => {
                         // inside a call chain
                         let a = self.counters.1;
@@ -1374,6 +1467,12 @@ impl<'a> SGen<'a> {
                             true,
                         ));
                         format!("f{}();", a)
+                    }
+                    2 if !self.globals.is_empty() => {
+                        // the failure strikes while values of global variables are pending operands
+                        let a = self.rng.pick(&self.globals).name.clone();
+                        let b = self.rng.pick(&self.globals).name.clone();
+                        format!("[{}, [{}, {}]];", a, b, self.rng.pick(RUN_FAILS).trim_end_matches(';'))
                     }
                     _ => self.rng.pick(RUN_FAILS).to_string(),
                 };
@@ -1407,11 +1506,13 @@ fn random_session(rng: &mut Rng) -> SessionSpec {
         lines.push(l);
     }
     // optionally one injected failure in an injectable line (position chosen now, step chosen by the caller)
+    let caller_releases = rng.chance(2, 3);
     SessionSpec {
         lines,
         crash: None,
         collect_every_step,
         alloc_mode,
+        caller_releases,
     }
 }
 
@@ -1419,7 +1520,7 @@ fn random_session(rng: &mut Rng) -> SessionSpec {
 // directed sessions
 
 fn directed(i: usize) -> Option<SessionSpec> {
-    let mk = |lines: Vec<SLine>| SessionSpec { lines, crash: None, collect_every_step: false, alloc_mode: alloc::PLAIN };
+    let mk = |lines: Vec<SLine>| SessionSpec { lines, crash: None, collect_every_step: false, alloc_mode: alloc::PLAIN, caller_releases: i % 2 == 0 };
     match i {
         0 => {
             // many failing lines that each leave operands and frames behind, then function calls
@@ -1655,6 +1756,10 @@ fn account(acc: &mut Acc, spec: &SessionSpec, r: &SessionResult) {
     if spec.collect_every_step {
         acc.count("sessions_with_collection_at_every_step", 1);
     }
+    if spec.caller_releases {
+        acc.count("sessions_where_the_caller_releases_unreferenced_values_early", 1);
+        acc.count("fault_caller_released_a_handed_out_value_mid_session", r.released_early);
+    }
     for l in &spec.lines[..r.lines_run.min(spec.lines.len())] {
         match &l.fail {
             Fail::Parse => acc.count("fault_parse_failure", 1),
@@ -1754,7 +1859,7 @@ pub fn scenario(acc: &mut Acc, seed: u64, index: u64, tier: Tier) {
             3
         };
         let lines = enumerated_session(code, len);
-        let sp = SessionSpec { lines, crash: None, collect_every_step: false, alloc_mode: alloc::PLAIN };
+        let sp = SessionSpec { lines, crash: None, collect_every_step: false, alloc_mode: alloc::PLAIN, caller_releases: index % 4 != 3 };
         acc.count("enumerated_sessions", 1);
         h = explore(acc, &sp, seed, index, true, &mut rng);
         // the same session once more with a collection at every instruction boundary
